@@ -108,6 +108,35 @@ def toUtf8 (C : Codecs) (v : Val) : Except Err Bytes :=
   | .str _ t => C.encode utf8Name .strict t           -- line 110: isinstance(text, str)
   | .other => .error .typeError
 
+/-! ## The public signatures: optional parameters and their defaults
+
+    safe_decode(text, incoming=None, errors='strict')
+    safe_encode(text, incoming=None, encoding='utf-8', errors='strict')
+    to_utf8(text)
+
+An optional parameter that the caller does not pass (positionally or by keyword) takes the
+default below; `none` in the `call…` functions means "not passed". -/
+
+def defaultIncoming : Option Name := none
+def defaultEncoding : Name := "utf-8".toList
+def defaultErrors : Policy := .strict
+
+def argOr {α : Type} (passed : Option α) (dflt : α) : α :=
+  match passed with
+  | some a => a
+  | none => dflt
+
+/-- `safe_decode` as called with any subset of its optional parameters -/
+def callSafeDecode (C : Codecs) (env : Env) (v : Val) (incoming : Option (Option Name))
+    (errors : Option Policy) : Except Err Text :=
+  safeDecode C env v (argOr incoming defaultIncoming) (argOr errors defaultErrors)
+
+/-- `safe_encode` as called with any subset of its optional parameters -/
+def callSafeEncode (C : Codecs) (env : Env) (v : Val) (incoming : Option (Option Name))
+    (encoding : Option Name) (errors : Option Policy) : Except Err Bytes :=
+  safeEncode C env v (argOr incoming defaultIncoming) (argOr encoding defaultEncoding)
+    (argOr errors defaultErrors)
+
 /-! ## A concrete codec table: utf-8, latin-1, ascii -/
 
 /-- bytes of one code point in UTF-8, as numbers -/
